@@ -52,6 +52,9 @@ func Attribute(m Mismatch, running string) string {
 		case has("!plus1", "!minus1", "!fee1", "!tax", "!zero", "block!payout", "!sfwrap", "!scwrap"):
 			return "C01"
 		case has("!early", "!timing", "immature", "!era", "!phpast", "!wspast", "!nowindow"):
+			if running == "C07" && has("immature") {
+				return "C07" // contract payouts are delayed by the maturity period
+			}
 			return "C08"
 		case has("!missedabovehost"):
 			if running == "C01" {
@@ -287,6 +290,9 @@ func Shapes() map[string]Params {
 		// Foundation era inside the horizon: the one-off subsidy at height 2, address updates by the Foundation keys
 		"foundation": {MatDelay: 1, AllowH: 3, RequireH: 6, EphH: 4, FoundH: 2, Reward: 500,
 			GenSC: []AbsOut{{600000, "A"}, {1199, "F"}, {2398, "M"}, {1199, "B"}}, GenSF: f},
+		// the same with v2 from the start: address updates (also to the void address) in the subsidy block itself
+		"foundation2": {MatDelay: 1, AllowH: 0, RequireH: 1, EphH: 0, FoundH: 2, Reward: 500,
+			GenSC: []AbsOut{{600000, "A"}, {1199, "F"}, {2398, "M"}, {1199, "M"}, {1199, "B"}}, GenSF: f},
 	}
 }
 
